@@ -26,7 +26,7 @@ ASSUMPTIONS = [
     "rows range over the integer grid [-2,2]^k: equivalence of predicates is decided on that grid only",
     "direct evaluation by vmon/interp.py (independent of both engines) and by iteration.Engine.convert_predicate",
 ]
-MIN_OBS = {"trivial_true_or_false": 100, "flatten_false": 20, "flatten_lists": 300, "selection_checked": 300, "restricted_rows_evaluated": 1000}
+MIN_OBS = {"subexpression_required_columns_checked": 5000, "trivial_true_or_false": 100, "flatten_false": 20, "flatten_lists": 300, "selection_checked": 300, "restricted_rows_evaluated": 1000}
 GRID = list(range(-2, 3))
 COLS = ["a", "b", "c"]
 _state: dict = {}
@@ -204,6 +204,19 @@ def run_case(case):
             viol("use_raised", exc_str(exc))
     if frozenset(lib.columns_required) != req_copy:
         viol("columns_required_mutated", f"{sorted(map(str, req_copy))} -> {sorted(map(str, lib.columns_required))}")
+    # every sub-expression, queried AFTER its parents were (cached sets are shared objects):
+    # its declared required columns must still be exactly the columns it references
+    for node in interp.subexpressions(lib):
+        c["subexpression_required_columns_checked"] = c.get("subexpression_required_columns_checked", 0) + 1
+        try:
+            got = set(node.columns_required)
+        except Exception as exc:  # noqa: BLE001
+            viol("columns_required_raised", f"sub-expression {node}: {exc_str(exc)}")
+            break
+        want_refs = interp.expr_refs(node)
+        if got != want_refs:
+            viol("subexpression_columns_required_wrong", f"sub-expression {node} declares {sorted(map(str, got))} but references {sorted(map(str, want_refs))} (after its parent's set was computed)")
+            break
 
     s = shape(ast)
     if any(x in s for x in ("and", "or", "not", "T", "F", "rng", "seq")) or depth(ast) >= 2:
